@@ -246,6 +246,105 @@ func c14Isolation() []string {
 	return problems
 }
 
+// ---- one tree, different environments: each run yields what it would yield alone ----
+type c14EnvMaker func() (*env.Env, *[]string)
+
+func c14Envs() []c14EnvMaker {
+	mk := func(tag string, typ interface{}, k interface{}, l interface{}, fnRet func(interface{}) interface{}) c14EnvMaker {
+		return func() (*env.Env, *[]string) {
+			e := env.NewEnv()
+			log := &[]string{}
+			e.DefineType("T", typ)
+			e.Define("K", k)
+			e.Define("L", l)
+			e.Define("fn", func(x interface{}) interface{} { *log = append(*log, tag+":"+c10ProjT(x)); return fnRet(x) })
+			e.Define("fn0", func() interface{} { *log = append(*log, tag+":fn0"); return k })
+			m, _ := e.NewModule("M")
+			m.Define("v", k)
+			vm.Execute(e, nil, "func sf(x) { return [\""+tag+"\", x] }")
+			return e, log
+		}
+	}
+	return []c14EnvMaker{
+		mk("A", int64(0), int64(2), []interface{}{int64(1), int64(2)}, func(x interface{}) interface{} { return x }),
+		mk("B", float64(0), 2.5, []interface{}{"p", "q", "r"}, func(x interface{}) interface{} { return []interface{}{x} }),
+		mk("C", "", "s", []interface{}{}, func(x interface{}) interface{} { return nil }),
+	}
+}
+
+var c14VariantPrograms = []string{
+	"a = make(struct { A T }); a.A = K; a", "x = make([]T, 1); x[0] = K; x", "make(T)", "p = new(T); *p", "[]T{K}", "map[string]T{\"k\": K}", "make(map[T]bool)",
+	"c = make(chan T, 1); c <- K; (<- c)", "fn(K)", "f = func(v) { return fn(v) }; f(K)", "func g() { defer fn(K); return fn0() }; g()", "r = []; for i in L { r += fn(i) }; r",
+	"M.v", "sf(K)", "[sf(1), fn0()]", "K + K", "x = K; x += K; [x, fn(x)]", "make(type U, K); make(U)", "func h(a) { return make(struct { F T, G []T }) }; h(1)",
+	"switch K {\ncase fn0(): fn(1)\ndefault: fn(2)\n}", "t = make([]T, 0); t += [K]; t", "s = 0; for i = 0; i < 3; i++ { s += len(L); fn(i) }; s",
+}
+
+func c14RunIn(mk c14EnvMaker, stmt anko.Stmt) string {
+	e, log := mk()
+	out := ""
+	func() {
+		defer func() {
+			if p := recover(); p != nil {
+				out = "PANIC " + fmt.Sprint(p)
+			}
+		}()
+		v, err := vm.Run(e, nil, stmt)
+		if err != nil {
+			out = "error " + err.Error()
+			return
+		}
+		out = c10ProjT(v)
+	}()
+	return out + " | " + strings.Join(*log, ";")
+}
+
+// c14Variants: every program parsed once; the shared tree is run in the three environments in two orders and then in all of
+// them at once; each result must equal what a fresh parse yields in a fresh copy of that environment.
+func c14Variants() (problems []string, runs int) {
+	envs := c14Envs()
+	for _, src := range c14VariantPrograms {
+		shared, err := ankoparser.ParseSrc(src)
+		if err != nil {
+			problems = append(problems, "does not parse: "+src)
+			continue
+		}
+		d0 := treeDump(shared)
+		solo := make([]string, len(envs))
+		for i, mk := range envs {
+			fresh, _ := ankoparser.ParseSrc(src)
+			solo[i] = c14RunIn(mk, fresh)
+		}
+		for _, order := range [][]int{{0, 1, 2}, {2, 0, 1}, {1, 1, 0}} {
+			for _, i := range order {
+				runs++
+				if got := c14RunIn(envs[i], shared); got != solo[i] {
+					problems = append(problems, fmt.Sprintf("%q: a tree already run in other environments yields %s in environment %d, alone it yields %s", src, clip(got), i, clip(solo[i])))
+				}
+			}
+		}
+		outs := make([]string, 2*len(envs))
+		var wg sync.WaitGroup
+		for g := range outs {
+			wg.Add(1)
+			go func(g int) {
+				defer wg.Done()
+				outs[g] = c14RunIn(envs[g%len(envs)], shared)
+			}(g)
+		}
+		wg.Wait()
+		for g, o := range outs {
+			runs++
+			if o != solo[g%len(envs)] {
+				problems = append(problems, fmt.Sprintf("%q: run concurrently on differing environments it yields %s in environment %d, alone it yields %s", src, clip(o), g%len(envs), clip(solo[g%len(envs)])))
+			}
+		}
+		if d := treeDump(shared); d != d0 {
+			problems = append(problems, fmt.Sprintf("%q: the tree differs after runs in differing environments: %s", src, firstDiff(d0, d)))
+		}
+	}
+	return problems, runs
+}
+
 // ---- static: writes to AST nodes in package vm ----
 type astWrite struct {
 	Pos    string `json:"pos"`
@@ -473,8 +572,10 @@ func c14Main(seed uint64, n int, outDir, repo string) error {
 			distinct[r.Src] = true
 		}
 	}
+	vproblems, vruns := c14Variants()
 	meta := map[string]interface{}{"programs": len(results), "parse_failures": parseFail, "distinct_nontrivial": len(distinct),
-		"isolation_problems": c14Isolation(), "ast_writes": writes, "non_fresh_ast_writes": nonFresh}
+		"isolation_problems": c14Isolation(), "ast_writes": writes, "non_fresh_ast_writes": nonFresh,
+		"variant_problems": vproblems, "variant_runs": vruns, "variant_programs": len(c14VariantPrograms)}
 	if werr != nil {
 		meta["ast_writes_error"] = werr.Error()
 	}
